@@ -62,6 +62,11 @@ class Unsupported(BaseException):
     cannot swallow it."""
 
 
+class OutOfBound(Unsupported):
+    """The path left the stated bounds (e.g. more loop iterations than the
+    unrolling bound): counted separately, neither pass nor violation."""
+
+
 def reset():
     """Forget all atoms (used between independent jobs)."""
     ATOMS.clear()
@@ -657,7 +662,12 @@ class Sx:
                 d = self - o
                 c = Cond("and", Cond("==", d.re), Cond("==", d.im))
                 return mkbool(c if op == "==" else c.negate())
-            raise TypeError("ordering of complex symbolic scalars")
+            # numpy orders complex numbers lexicographically (real, then imag)
+            d = self - o
+            strict = Cond("or", Cond("<", d.re), Cond("and", Cond("==", d.re), Cond("<", d.im)))
+            if op == "<":
+                return mkbool(strict)
+            return mkbool(Cond("or", strict, Cond("and", Cond("==", d.re), Cond("==", d.im))))
         d = padd(self.re, pneg(o.re))
         return mkbool(Cond(op, d))
 
@@ -1086,13 +1096,14 @@ _FLOAT_ANGLES: dict = {}
 class AngAtom:
     """A basic angle with its cosine and sine as polynomials."""
 
-    __slots__ = ("name", "cos", "sin", "value")
+    __slots__ = ("name", "cos", "sin", "value", "rng")
 
-    def __init__(self, name, cos, sin, value=None):
+    def __init__(self, name, cos, sin, value=None, rng=None):
         self.name = name
         self.cos = cos
         self.sin = sin
         self.value = value  # concrete float for abstracted float angles
+        self.rng = rng      # known range of the angle: "(-pi,pi]", "[0,pi)", None
 
 
 def angle(name: str, divisor: int = 1):
@@ -1131,11 +1142,31 @@ def _float_angle(x: float):
 class Ang:
     """A linear form  q*pi + sum k_i * atom_i  with integer k_i."""
 
-    __slots__ = ("terms", "pi")
+    __slots__ = ("terms", "pi", "reduced")
 
-    def __init__(self, terms: dict, pi: Fraction):
+    def __init__(self, terms: dict, pi: Fraction, reduced: bool = False):
         self.terms = {a: k for a, k in terms.items() if k}
         self.pi = Fraction(pi)
+        self.reduced = reduced  # value known to lie in [0, 2*pi) (result of x % (2*pi))
+
+    def in_0_2pi(self):
+        """bool / SymBool: does the value lie in [0, 2*pi)?"""
+        if self.reduced:
+            return True
+        if not self.terms:
+            return 0 <= self.pi < 2
+        if all(a.value is not None for a in self.terms):
+            return 0 <= float(self) < 2 * math.pi
+        if len(self.terms) == 1 and self.pi == 0:
+            (a, k), = self.terms.items()
+            if a.rng == "(-pi,pi]" and k == 1:
+                # angle(z) >= 0  <=>  sin >= 0
+                return mkbool(Cond("<=", pneg(a.sin)))
+            if a.rng == "[0,pi/2]" and k in (1, 2, 3):
+                return True
+            if a.rng == "[0,pi]" and k == 1:
+                return True
+        raise Unsupported("range of a symbolic angle expression")
 
     def __add__(self, o):
         if isinstance(o, Ang):
@@ -1206,9 +1237,20 @@ class Ang:
         return NotImplemented
 
     def __mod__(self, o):
-        # only x % (2*pi) is meaningful symbolically: identity on cos/sin
+        # only x % (2*pi) is meaningful symbolically: identity on cos/sin,
+        # and the result is known to lie in [0, 2*pi)
         if isinstance(o, Ang) and not o.terms and o.pi == 2:
-            return self
+            if not self.terms:
+                return Ang({}, self.pi % 2, True)
+            return Ang(self.terms, self.pi, True)
+        return NotImplemented
+
+    def __rmod__(self, o):
+        # number % (2*pi)
+        if isinstance(o, Sx) and o.is_const() and not o.im:
+            o = float(o)
+        if isinstance(o, (int, float, Fraction)) and not isinstance(o, bool):
+            return _float_angle(float(o)) % self
         return NotImplemented
 
     def is_const(self):
@@ -1474,7 +1516,29 @@ def sarccos(x) -> Ang:
             return Ang({AngAtom(f"nan#{_ARC[0]}", c.re, sn.re): 1}, F0)
     s = ssqrt(rad)
     _ARC[0] += 1
-    aa = AngAtom(f"arccos#{_ARC[0]}", x.re, s.re)
+    aa = AngAtom(f"arccos#{_ARC[0]}", x.re, s.re, rng="[0,pi]")
+    return Ang({aa: 1}, F0)
+
+
+def sarctan(q):
+    """arctan of a real scalar: an angle in (-pi/2, pi/2) with
+    cos = 1/sqrt(1+q^2) > 0, sin = q/sqrt(1+q^2)."""
+    q = const(q) if not isinstance(q, Sx) else q
+    if q.im:
+        raise Unsupported("arctan of complex")
+    if q.is_const():
+        v = q._rat()
+        if v == 0:
+            return Ang({}, F0)
+        if v == 1:
+            return Ang({}, Fraction(1, 4))
+        if v == -1:
+            return Ang({}, Fraction(-1, 4))
+    h = ssqrt(ONE + q * q, nonneg=True)
+    hi = h.reciprocal()
+    _ARC[0] += 1
+    nonneg = mkbool(Cond("<=", pneg(q.re)))
+    aa = AngAtom(f"arctan#{_ARC[0]}", hi.re, (q * hi).re, rng="[0,pi/2]" if (nonneg is True or (nonneg is not False and bool(nonneg))) else None)
     return Ang({aa: 1}, F0)
 
 
